@@ -67,8 +67,11 @@ def coq_rel(cases):
     text = list(listcorr.HEADER)
     text.append('Definition cases : list meta_case := [')
     items = []
+    local = []
     for c in cases:
         cid, rel, ss, sd, o1, o2 = c[:6]
+        local.append(cid)
+        cid = len(local) - 1          # small nat literals only (ids are mapped back below)
         rn0 = c[6] if len(c) > 6 else (lambda s: s)
         # both reports come from the implementation: workload names are consistently replaced by short ids, which only
         # makes the string comparisons inside the checker cheap
@@ -91,7 +94,7 @@ def coq_rel(cases):
     mm = core.parse_pairs(out, 'MM')
     if mm is None:
         raise RuntimeError('could not parse coqc output: ' + out[-800:])
-    return [cid for cid, _ in mm]
+    return [local[i] for i, _ in mm]
 
 
 def run_pairs(h, pairs, opts1=None, opts2=None):
